@@ -129,6 +129,18 @@ impl ReadBufPool {
             });
         }
         ring_tail.store(pool_size, Ordering::Release);
+        #[cfg(a10_verif)]
+        {
+            let fields = [
+                u64::from(id),
+                u64::from(pool_size),
+                u64::from(buf_size),
+                pool.bufs_addr.addr() as u64,
+                ptr::from_ref(ring_addr).addr() as u64,
+                0,
+            ];
+            crate::verif::emit("PoolNew", fields);
+        }
 
         // NOTE: unpoisioned in ReadBufPool::release before usage and finally in
         // the Drop impl.
@@ -150,6 +162,8 @@ impl ReadBufPool {
 
     pub(crate) unsafe fn init_buffer(&self, id: BufId, n: u32) -> NonNull<[u8]> {
         let addr = unsafe { self.bufs_addr.add(id.0 as usize * self.buf_size()) };
+        #[cfg(a10_verif)]
+        crate::verif::emit("BufInit", [u64::from(self.id), u64::from(id.0), u64::from(n), 0, 0, 0]);
         log::trace!(buffer_group = self.id, buffer = id.0, addr:? = addr, len = n; "initialised buffer");
         // SAFETY: `bufs_addr` is not NULL.
         let addr = unsafe { NonNull::new_unchecked(addr) };
@@ -181,6 +195,8 @@ impl ReadBufPool {
         // Get a ring_buf we write into.
         // NOTE: that we allocated at least as many `io_uring_buf`s as we
         // did buffer, so there is always a slot available for us.
+        #[cfg(a10_verif)]
+        crate::verif::yield_point("pool.release.locked");
         let tail = ring_tail.load(Ordering::Acquire);
         let ring_idx = tail & self.tail_mask;
         let ring_buf = unsafe {
@@ -211,6 +227,12 @@ impl ReadBufPool {
         );
         // NOTE: poising the buffer again, unpoisoned in ReadBufPool::init_buffer.
         asan::poison_region(ptr.as_ptr().cast(), self.buf_size());
+        #[cfg(a10_verif)]
+        {
+            crate::verif::yield_point("pool.release.filled");
+            let fields = [u64::from(self.id), u64::from(buf_id), u64::from(tail), 0, 0, 0];
+            crate::verif::emit("BufRelease", fields);
+        }
         ring_tail.store(tail.wrapping_add(1), Ordering::Release);
         unlock(guard);
     }
@@ -237,6 +259,8 @@ unsafe impl Send for ReadBufPool {}
 
 impl Drop for ReadBufPool {
     fn drop(&mut self) {
+        #[cfg(a10_verif)]
+        crate::verif::emit("PoolDrop", [u64::from(self.id), 0, 0, 0, 0, 0]);
         let page_size = page_size();
 
         // Unregister the buffer pool with the ring.
